@@ -71,7 +71,7 @@ func init() {
 				n = 4
 			}
 			out = append(out, seeded("C09", seed, n, func(i int, sd uint64) *k.Spec {
-				s := &k.Spec{Params: cp(c09Kinds[int(k.H(sd, "kind", 0)%3)], "hist", "random")}
+				s := &k.Spec{Seed: sd, Params: cp(c09Kinds[int(k.H(sd, "kind", 0)%3)], "hist", "random")}
 				swarm(s, "mux_broker.go,grpc_broker.go:GRPCBroker")
 				if s.DelayClass == "big" {
 					s.DelayClass = "mid"
